@@ -168,12 +168,12 @@ def valid_kinds(ks: tuple[str, ...]) -> bool:
     return True
 
 
-def render_sig(ks: tuple[str, ...], ts: tuple[str, ...]) -> str:
+def render_sig(ks: tuple[str, ...], ts: tuple[str, ...], names: list[str] | None = None) -> str:
     """Parameter list of a def with the given kinds and parameter types."""
     parts: list[str] = []
     star_done = False
     for i, (k, t) in enumerate(zip(ks, ts)):
-        n = PNAMES[i]
+        n = (names or PNAMES)[i]
         if k == "po":
             parts.append(f"{n}: {t}")
             if i + 1 == len(ks) or ks[i + 1] != "po":
@@ -197,7 +197,7 @@ def render_sig(ks: tuple[str, ...], ts: tuple[str, ...]) -> str:
 
 def callable_family(rng, thorough: bool) -> list[tuple[str, str]]:
     """[(universe name, def source)]: all 1-parameter signatures over 3 types, all valid 2-parameter kind pairs over
-    {A, B} (thorough: over 3 types), a random sample of 3-parameter ones."""
+    {A, B} (thorough: over 3 types) under two namings, a random sample of 3-parameter ones."""
     import itertools
     sigs: list[tuple[tuple[str, ...], tuple[str, ...]]] = []
     for k in KINDS:
@@ -209,11 +209,16 @@ def callable_family(rng, thorough: bool) -> list[tuple[str, str]]:
             for ts in itertools.product(types2, repeat=2):
                 sigs.append((ks, ts))
     k3 = [ks for ks in itertools.product(KINDS, repeat=3) if valid_kinds(ks)]
+    # fixed representatives of the F-C08j cell (same parameter reachable through *args and by keyword)
+    sigs.append((("ok", "ok", "va"), ("A", "A", "B")))
+    sigs.append((("ok", "va", "kw"), ("A", "A", "A")))
     for _ in range(260 if thorough else 30):
         sigs.append((rng.choice(k3), tuple(rng.choice(("A", "B", "int")) for _ in range(3))))
     out, seen = [], set()
-    for ks, ts in sigs:
-        sig = render_sig(ks, ts)
+    rendered = [render_sig(ks, ts) for ks, ts in sigs]
+    # the 2-parameter signatures once more with the names swapped (same name at another position / kind)
+    rendered += [render_sig(ks, ts, ["y", "x", "z"]) for ks, ts in sigs if len(ks) == 2]
+    for sig in rendered:
         if sig in seen:
             continue
         seen.add(sig)
